@@ -43,6 +43,8 @@ def action_class(body_, engine):
 
 
 def run(ck, facts, tier):
+    from shared import fixedpoint as _fpx
+    _fpx.loop_exits(ck, facts, "C04.FIXPOINT-EXITS")
     from shared import clauses as _cl
     _cl.every_clause(ck, facts, "C04.EVERY-CLAUSE")
     _cl.trivial_subst_kinds(ck, facts, "C04.FULFILL-APPLY")
